@@ -143,7 +143,17 @@ func (p prog) exec(t *f1testing.T, as []act) {
 				require.True(t, false)
 			}
 		case 3:
-			switch a.how % 5 {
+			switch a.how % 7 {
+			case 5:
+				// Error / Fatal with a nil error: the iteration fails and the body stops there (on the
+				// pinned code through the nil dereference inside the logging of the error)
+				var noErr error
+				t.Error(noErr)
+				panic("unreachable: Error(nil) returned")
+			case 6:
+				var noErr error
+				t.Fatal(noErr)
+				panic("unreachable: Fatal(nil) returned")
 			case 4:
 				panic(fieldErrors{"a"}) // an error of a non-comparable dynamic type
 			case 0:
@@ -329,19 +339,29 @@ func TestC06Run(t *testing.T) {
 		var logv []int64
 		p := prog{tab: genTab(r, &mb), log: &logv, mu: &sync.Mutex{}, div: make(chan struct{})}
 		setupActs := genActs(r, len(p.tab), 6, &mb, kit.Pick(r, 0, 0, 15, 40))
-		var iters atomic.Int64
+		var iters, finishedIters atomic.Int64
 		var lateBody atomic.Int64
+		var inFlightAtTeardown atomic.Int64
 		var tornDown, setupOK atomic.Bool
+		// a run that lasts longer than the completion timeout, with iterations in flight when the
+		// triggering stops: the setup cleanups still wait for them (they finish well within the timeout)
+		longRun := i%5 == 4
 		scenario := func(st *f1testing.T) f1testing.RunFn {
 			// first registered = last to run: marks the end of the teardown phase
 			st.Cleanup(func() { tornDown.Store(true) })
 			p.exec(st, setupActs)
 			setupOK.Store(!st.Failed()) // reached only when the setup neither panicked nor stopped
+			// last registered = first to run: every started iteration must have finished by now
+			st.Cleanup(func() { inFlightAtTeardown.Store(iters.Load() - finishedIters.Load()) })
 			return func(t *f1testing.T) {
 				if tornDown.Load() {
 					lateBody.Add(1)
 				}
 				iters.Add(1)
+				if longRun {
+					time.Sleep(100 * time.Millisecond)
+				}
+				finishedIters.Add(1)
 			}
 		}
 		mode := kit.Pick(r, "users", "constant")
@@ -351,7 +371,13 @@ func TestC06Run(t *testing.T) {
 			flags["distribution"] = "none"
 		}
 		ending := kit.Pick(r, "limit", "duration", "cancel")
+		if longRun {
+			ending = "duration"
+		}
 		opts := options.RunOptions{MaxDuration: 80 * time.Millisecond, Concurrency: 2, IgnoreDropped: true}
+		if longRun {
+			opts.MaxDuration = 550 * time.Millisecond
+		}
 		ctx, cancel := context.WithCancel(context.Background())
 		switch ending {
 		case "limit":
@@ -366,7 +392,11 @@ func TestC06Run(t *testing.T) {
 		var dump string
 		och := make(chan runkit.Outcome, 1)
 		go func() {
-			oc, h, d := runkit.DoTimeout(runkit.Config{Mode: mode, Flags: flags, Scenario: scenario, Opts: opts, Ctx: ctx}, 60*time.Second)
+			rcfg := runkit.Config{Mode: mode, Flags: flags, Scenario: scenario, Opts: opts, Ctx: ctx}
+			if longRun {
+				rcfg.Wait = 400 * time.Millisecond // completion timeout shorter than the run, longer than any iteration
+			}
+			oc, h, d := runkit.DoTimeout(rcfg, 60*time.Second)
 			hung, dump = h, d
 			och <- oc
 		}()
@@ -385,6 +415,13 @@ func TestC06Run(t *testing.T) {
 		if out.Err != nil || out.Result == nil {
 			o.Fail("run-error", fmt.Sprintf("Run.Do failed: %v", out.Err))
 			continue
+		}
+		if inFlightAtTeardown.Load() > 0 {
+			o.Fail("teardown-before-iterations-finished", fmt.Sprintf("the setup cleanups started while %d started iteration(s) were still executing (%s, %s; run of %s, completion timeout %s, iterations of 100ms)",
+				inFlightAtTeardown.Load(), mode, ending, opts.MaxDuration, map[bool]string{true: "400ms", false: "default"}[longRun]))
+		}
+		if longRun {
+			o.Count("run", "longer than the completion timeout, iterations in flight at the end")
 		}
 		if lateBody.Load() > 0 {
 			o.Fail("body-after-teardown", fmt.Sprintf("%d iteration bodies started after the setup cleanups ran (%s,%s)", lateBody.Load(), mode, ending))
